@@ -611,10 +611,11 @@ theorem C33_registries_step (s : DState) (op : DOp) (h : RegInv norm s) :
         · have : ¬ (e.2.table = m.table ∧ e.2.name = i) := by
             rintro ⟨_, hn⟩; apply hk; rw [h2 e he, hn]
           have hb1 : (e.1 == norm i) = false := by simpa using hk
-          rw [hb1]
-                    cases hb2 : (e.2.table == _ && e.2.name == _) with
-          | false => rfl
-          | true => simp only [Bool.and_eq_true, beq_iff_eq] at hb2; exact absurd hb2 this)
+          have hb3 : (e.2.table == m.table && e.2.name == i) = false := by
+            cases hx : (e.2.table == m.table && e.2.name == i) with
+            | false => rfl
+            | true => simp only [Bool.and_eq_true, beq_iff_eq] at hx; exact absurd hx this
+          simp only [hb1, hb3])
       exact RegInv_congr norm _ _ this rfl rfl
     · split
       · rename_i v hv
@@ -631,10 +632,11 @@ theorem C33_registries_step (s : DState) (op : DOp) (h : RegInv norm s) :
           · have : ¬ (e.2.table = v.2.table ∧ e.2.name = v.2.name) := by
               rintro ⟨_, hn⟩; apply hk; rw [h2 e he, hn, ← h2 v hv2, hv1]
             have hb1 : (e.1 == norm i) = false := by simpa using hk
-            rw [hb1]
-                        cases hb2 : (e.2.table == _ && e.2.name == _) with
-            | false => rfl
-            | true => simp only [Bool.and_eq_true, beq_iff_eq] at hb2; exact absurd hb2 this)
+            have hb3 : (e.2.table == v.2.table && e.2.name == v.2.name) = false := by
+              cases hx : (e.2.table == v.2.table && e.2.name == v.2.name) with
+              | false => rfl
+              | true => simp only [Bool.and_eq_true, beq_iff_eq] at hx; exact absurd hx this
+            simp only [hb1, hb3])
         exact RegInv_congr norm _ _ this rfl rfl
       · exact h
   | insert n r =>
